@@ -105,7 +105,8 @@ def _make_float_literal(value: float) -> cst.BaseExpression:
     if math.isinf(value):
         literal = "'inf'" if value > 0 else "'-inf'"
         return cst.Call(func=cst.Name("float"), args=[cst.Arg(value=cst.SimpleString(literal))])
-    if value < 0:
+    if math.copysign(1.0, value) < 0:
+        # also covers -0.0, which is not smaller than zero
         return cst.UnaryOperation(operator=cst.Minus(), expression=cst.Float(str(-value)))
     return cst.Float(str(value))
 
@@ -152,6 +153,12 @@ def _value_to_cst(value: Any) -> cst.BaseExpression:  # noqa: C901
         return cst.Name("None")
     if isinstance(value, bool):
         return cst.Name("True" if value else "False")
+    if tu.is_enum(type(value)):
+        # EnumClass.MEMBER; checked before the primitive types because the members of
+        # StrEnum/IntEnum are instances of str/int, too.
+        class_name = type(value).__name__
+        member_name = value.name
+        return cst.Attribute(value=cst.Name(class_name), attr=cst.Name(member_name))
     if isinstance(value, int):
         if value < 0:
             return cst.UnaryOperation(operator=cst.Minus(), expression=cst.Integer(str(-value)))
@@ -163,12 +170,14 @@ def _value_to_cst(value: Any) -> cst.BaseExpression:  # noqa: C901
     if isinstance(value, bytes):
         return cst.SimpleString(repr(value))
     if isinstance(value, complex):
-        return cst.SimpleString(repr(value))
-    if tu.is_enum(type(value)):
-        # EnumClass.MEMBER
-        class_name = type(value).__name__
-        member_name = value.name
-        return cst.Attribute(value=cst.Name(class_name), attr=cst.Name(member_name))
+        # complex(real, imag) keeps signed zeros, infinities and NaN components
+        return cst.Call(
+            func=cst.Name("complex"),
+            args=[
+                cst.Arg(value=_make_float_literal(value.real)),
+                cst.Arg(value=_make_float_literal(value.imag)),
+            ],
+        )
     typ = type(value)
     if tu.is_list(typ):
         return cst.List(elements=[cst.Element(value=_value_to_cst(v)) for v in value])
